@@ -6,3 +6,6 @@ open IQE.Props.C34
 #print axioms C34_ticket
 #print axioms C34_command
 #print axioms C34_same_decision
+#print axioms C34_bridge_constants
+#print axioms C34_flight_mode_table
+#print axioms C34_bridge_flight_vocabulary
